@@ -32,6 +32,10 @@ SYNTH = {
            (4, b"m::k2345678901"), (5, b"m::k23456789012")],
     # indices that are not positions, unsorted keys, keys that are prefixes of each other, '[]' before an upper-case sibling
     "S3": [(5, b"b"), (0, b"a*"), (3, b"ab"), (1, b"abc*S"), (4, b"aB"), (2, b"a[]*S"), (6, b"c::x"), (6, b"c::x*L")],
+    # nested dictionaries FIRST, then outer keys of 12..15 characters (the room left in current_key must be
+    # restored when a nested dictionary ends), a second nested dictionary after long keys
+    "S4": [(0, b"a::b"), (1, b"a::c::d"), (2, b"b2345678901234"), (3, b"c23456789012345"), (4, b"d234567890123"),
+           (5, b"e23456789012"), (6, b"f::g2345678901"), (7, b"f::h23456789012"), (8, b"g")],
 }
 
 
@@ -186,6 +190,85 @@ def stored_matches(s, node, sv):
     if kind == "M":
         return node.kind == "d" and sv[1] == span[1:-1]
     return False
+
+
+def key_runs(tbl):
+    """maximal runs of equal consecutive keys: [(first position, [positions])]"""
+    out = []
+    pos = 0
+    while pos < len(tbl):
+        run = [pos]
+        while pos + 1 < len(tbl) and tbl[pos + 1][1] == tbl[pos][1]:
+            pos += 1
+            run.append(pos)
+        out.append(run)
+        pos += 1
+    return out
+
+
+def projection(tbl, s, root):
+    """What a static-map read of the CANONICAL dictionary s (sorted unique keys at every level) must
+    store for a well-formed sorted table: the projection of the tree s denotes onto the key table.
+    Entry = None (left untouched) when the path is absent or the value has the wrong type for the
+    row's kind. List rows: the t-th row of a run of equal "x[]…" keys gets the t-th element."""
+    out = [None] * len(tbl)
+
+    def child(d, name):
+        if d.kind != "d":
+            return None
+        for k, v in d.items:
+            if k == name:
+                return v
+        return None
+
+    for run in key_runs(tbl):
+        key = tbl[run[0]][1]
+        path, leaf, raw = parse_key(key)
+        node = root
+        lst = None
+        ok = True
+        for name, kind in path:
+            c = child(node, name)
+            if c is None:
+                ok = False
+                break
+            if kind == "d":
+                if c.kind != "d":
+                    ok = False
+                    break
+                node = c
+            else:
+                lst = c
+                break
+        if not ok:
+            continue
+        if lst is not None:
+            if lst.kind != "l":
+                continue
+            for t, p in enumerate(run):
+                if t < len(lst.items):
+                    el = lst.items[t]
+                    out[tbl[p][0]] = ("B", s[el.a:el.b]) if raw else ("V", False, node_tree(s, el))
+            continue
+        c = child(node, leaf)
+        if c is None:
+            continue
+        span = s[c.a:c.b]
+        idx = tbl[run[0]][0]
+        if raw is None:
+            out[idx] = ("V", False, node_tree(s, c))
+        elif raw == "B":
+            out[idx] = ("B", span)
+        elif raw == "S":
+            if c.kind == "s":
+                out[idx] = ("S", c.val)
+        elif raw == "L":
+            if c.kind == "l":
+                out[idx] = ("L", span[1:-1])
+        elif raw == "M":
+            if c.kind == "d":
+                out[idx] = ("M", span[1:-1])
+    return out
 
 
 # ------------------------------------------------------------------ message construction
@@ -351,7 +434,7 @@ def gen(seed, tier):
     cases = []
     stats = {"corpus": 0, "tables": 0, "hand": 0, "R_valid": 0, "R_unsorted_dup_unknown": 0, "R_wrong_type": 0, "R_nul": 0,
              "R_prefix": 0, "R_mutation": 0, "R_keylen": 0, "R_deep": 0, "R_random_table": 0, "W_roundtrip": 0,
-             "W_mismatch": 0, "R_exhaustive": 0}
+             "W_mismatch": 0, "R_exhaustive": 0, "R_after_nested": 0, "RI_dirty": 0}
     # own directory: gen/c07.py feeds every file of corpus/C07 to the base drivers
     cdir = os.path.join(os.path.dirname(os.path.dirname(os.path.abspath(__file__))), "corpus", "C07SM")
     if os.path.isdir(cdir):
@@ -361,7 +444,7 @@ def gen(seed, tier):
                 if l and not l.startswith("#"):
                     cases.append(l)
                     stats["corpus"] += 1
-    for n in ("H", "P", "M", "D", "S1", "S2", "S3"):
+    for n in ("H", "P", "M", "D", "S1", "S2", "S3", "S4"):
         cases.append("T " + TSPEC[n])
         stats["tables"] += 1
     for n, s in HAND:
@@ -422,6 +505,59 @@ def gen(seed, tier):
                 ents = ["%d %s" % (tbl[p][0], sval_line(r, parse_key(tbl[p][1])[2], mismatch=0.5)) for p in allpos if r.random() < 0.5]
                 cases.append("W %s %d %s" % (ts, len(ents), " ".join(ents)))
                 stats["W_mismatch"] += 1
+    # every outer key after every nested dictionary (and after a list), canonical messages: the bound on the
+    # key length depends on the nesting level and must be restored when a nested dictionary ends
+    def after_nested(ts, tbl):
+        firsts = []
+        for p, (_, k) in enumerate(tbl):
+            path, leaf, raw = parse_key(k)
+            firsts.append((path[0][0] if path else leaf, bool(path)))
+        for a in range(len(tbl)):
+            if not firsts[a][1]:
+                continue
+            later = [b for b in range(a + 1, len(tbl)) if firsts[b][0] != firsts[a][0]]
+            if not later:
+                continue
+            longest = max(later, key=lambda b: len(firsts[b][0]))
+            for b in sorted(set(later[:3] + [longest])):
+                cases.append("R %s %s" % (ts, hx(build_message(r, tbl, [a, b]))))
+                stats["R_after_nested"] += 1
+            cases.append("R %s %s" % (ts, hx(build_message(r, tbl, [a] + later))))
+            stats["R_after_nested"] += 1
+        cases.append("R %s %s" % (ts, hx(build_message(r, tbl, list(range(len(tbl)))))))
+        stats["R_after_nested"] += 1
+
+    for n in names:
+        after_nested(TSPEC[n], TABLES[n])
+
+    # destination independence: read into a map whose entries hold stale values (same kind as the row,
+    # trees with the unordered flag set, other kinds)
+    def stale(tbl, p):
+        path, leaf, raw = parse_key(tbl[p][1])
+        is_list = any(kind == "l" for _, kind in path)
+        kind = ("B" if raw else None) if is_list else raw
+        c = r.random()
+        if c < 0.25:
+            return "U " + B.tree_line(r.choice(([b"stale"], ("M", [(b"z", 1)]), b"old", 77)))
+        if c < 0.4:
+            return sval_line(r, r.choice((None, "B", "S", "L", "M")))
+        if kind is None:
+            return "V " + B.tree_line(r.choice(([b"stale", [1]], ("M", [(b"a", b"stale")]), b"stale-string", -7)))
+        return sval_line(r, kind)
+
+    def dirty(ts, tbl, msg):
+        ents = ["%d %s" % (tbl[p][0], stale(tbl, p)) for p in range(len(tbl)) if r.random() < 0.7 and tbl[p][0] < len(tbl)]
+        cases.append("RI %s %d %s %s" % (ts, len(ents), " ".join(ents), hx(msg)))
+        stats["RI_dirty"] += 1
+
+    for it in range(6 if tier == "quick" else 60):
+        for n in names:
+            tbl = TABLES[n]
+            present = [p for p in range(len(tbl)) if r.random() < 0.7]
+            dirty(TSPEC[n], tbl, build_message(r, tbl, present))
+            dirty(TSPEC[n], tbl, build_message(r, tbl, present, wrong=0.4, order=r.choice(("sorted", "shuffle"))))
+            dirty(TSPEC[n], tbl, b"de")
+
     # key lengths 13..17 at nesting offsets 0 and 3 (the "size >= 16 - next_key" boundary)
     for n in ("S2", "H"):
         for ln in range(11, 19):
@@ -462,6 +598,8 @@ def gen(seed, tier):
         ents = ["%d %s" % (tbl[p][0], sval_line(r, parse_key(tbl[p][1])[2], mismatch=0.2)) for p in present]
         cases.append("W %s %d %s" % (ts, len(ents), " ".join(ents)))
         stats["W_roundtrip"] += 1
+        after_nested(ts, tbl)
+        dirty(ts, tbl, build_message(r, tbl, present))
     # exhaustive small scope: every body over a structural alphabet after the leading 'd'
     ex_tbl = [(0, b"a"), (1, b"a[]*"), (2, b"b::a*S"), (3, b"b::b*M")]
     ex_alpha = b"del1:ab0i"
